@@ -25,7 +25,9 @@ ASSUMPTIONS = [
     '(sum/count of unmasked cells; min/max as z3 ite terms; std via a fresh '
     's>=0, s*s=var); unmasked reductions and apply_along_axis are numpy itself',
     'order independence is asserted for sum/min/max always and for mean on '
-    'unmasked data only (a mean of means over masked data is not the mean)',
+    'a mean over masked data along several dimensions must equal the '
+    'per-axis means taken in some order of the named axes (the property '
+    'does not fix the order; a joint mean is neither)',
     '1-D callables are concrete closures: np.diff, x[::2], np.convolve with '
     'fixed symmetric and asymmetric kernels (valid/same)',
     'mask patterns are enumerated, data symbolic',
@@ -224,9 +226,13 @@ class Apply(common.SpaceMixin, Obligation):
             fs = set(funcs[v.dims[i]] for i in axes)
             joint = len(axes) > 1 and len(fs) == 1 and \
                 list(fs)[0] in ('sum', 'min', 'max', 'prod', 'mean')
+            orders = [axes]
             if joint and list(fs)[0] == 'mean' and mask.any():
-                ref[v.name] = None  # mean of means over masked data: no claim
-                continue
+                # a mean over masked data does not commute and the property
+                # does not fix the order of the axes: the result must be the
+                # per-axis means taken in SOME order of the named axes
+                joint = False
+                orders = [list(p) for p in itertools.permutations(axes)]
             if joint:
                 f = list(fs)[0]
                 oshape = [1 if i in axes else s
@@ -246,30 +252,36 @@ class Apply(common.SpaceMixin, Obligation):
                     rm[oidx] = m[0]
                 ref[v.name] = (v.dims, rd, rm)
                 continue
-            # sequential, first axis first
-            cd, cm = data, mask
-            for i in axes:
-                f = funcs[v.dims[i]]
-                d2 = np.moveaxis(cd, i, -1)
-                m2 = np.moveaxis(cm, i, -1)
-                lead = d2.shape[:-1]
-                rows = []
-                mrows = []
-                for lidx in np.ndindex(*lead):
-                    r, m = ref_lane(f, list(d2[lidx]), [bool(x)
-                                                        for x in m2[lidx]])
-                    rows.append(r)
-                    mrows.append(m)
-                L = len(rows[0]) if rows else 0
-                nd = np.empty(lead + (L,), dtype=object)
-                nm = np.zeros(lead + (L,), dtype=bool)
-                for k, lidx in enumerate(np.ndindex(*lead)):
-                    for j in range(L):
-                        nd[lidx + (j,)] = rows[k][j]
-                        nm[lidx + (j,)] = mrows[k][j]
-                cd = np.moveaxis(nd, -1, i)
-                cm = np.moveaxis(nm, -1, i)
-            ref[v.name] = (v.dims, cd, cm)
+            # sequential, first axis first (every order for a masked mean)
+            alts = []
+            for order in orders:
+                cd, cm = data, mask
+                for i in order:
+                    f = funcs[v.dims[i]]
+                    d2 = np.moveaxis(cd, i, -1)
+                    m2 = np.moveaxis(cm, i, -1)
+                    lead = d2.shape[:-1]
+                    rows = []
+                    mrows = []
+                    for lidx in np.ndindex(*lead):
+                        r, m = ref_lane(f, list(d2[lidx]),
+                                        [bool(x) for x in m2[lidx]])
+                        rows.append(r)
+                        mrows.append(m)
+                    L = len(rows[0]) if rows else 0
+                    nd = np.empty(lead + (L,), dtype=object)
+                    nm = np.zeros(lead + (L,), dtype=bool)
+                    for k, lidx in enumerate(np.ndindex(*lead)):
+                        for j in range(L):
+                            nd[lidx + (j,)] = rows[k][j]
+                            nm[lidx + (j,)] = mrows[k][j]
+                    cd = np.moveaxis(nd, -1, i)
+                    cm = np.moveaxis(nm, -1, i)
+                alts.append((cd, cm))
+            ref[v.name] = (v.dims, alts[0][0], alts[0][1])
+            if len(alts) > 1:
+                self._alts = getattr(self, '_alts', {})
+                self._alts[v.name] = alts
         return ref, newlens
 
     def _claims(self, out, src, claim, tol=None, h=None, tag=''):
@@ -305,18 +317,24 @@ class Apply(common.SpaceMixin, Obligation):
             obs['data_' + v.name] = [None if m else x for x, m in
                                      zip(gd.ravel().tolist(),
                                          gm.ravel().tolist())]
-            claim(tag + 'mask:' + v.name,
-                  z3.BoolVal(bool((gm == em).all())))
-            eqs = []
-            for idx in np.ndindex(*ed.shape):
-                if em[idx] or gm[idx]:
-                    continue
-                if tol is None:
-                    eqs.append(match_expr(gd[idx], ed[idx]))
-                else:
-                    eqs.append(z3.BoolVal(_close(gd[idx], ed[idx], tol)))
-            claim(tag + 'data:' + v.name,
-                  z3.And(*eqs) if eqs else z3.BoolVal(True))
+            alts = getattr(self, '_alts', {}).get(v.name) or [(ed, em)]
+            # (one reference, or for a masked mean along several axes the
+            # per-axis result in each order of the axes)
+            both = []
+            for ad, am in alts:
+                eqs = [z3.BoolVal(bool((gm == am).all()))]
+                for idx in np.ndindex(*ad.shape):
+                    if am[idx] or gm[idx]:
+                        continue
+                    if tol is None:
+                        eqs.append(match_expr(gd[idx], ad[idx]))
+                    else:
+                        eqs.append(z3.BoolVal(_close(gd[idx], ad[idx], tol)))
+                both.append(z3.And(*eqs))
+            if len(alts) == 1:
+                claim(tag + 'mask:' + v.name,
+                      z3.BoolVal(bool((gm == em).all())))
+            claim(tag + 'data:' + v.name, z3.Or(*both))
         if h is not None:
             for k, val in obs.items():
                 h.observe(tag + k, val)
@@ -472,6 +490,8 @@ def _specs(tier):
         VarSpec('x', ('x',), attrs={'units': 'm'}, coord=True),
         VarSpec('A', ('t', 'x'), attrs=A),
         VarSpec('M', ('t', 'x'), masked=(1, 3)),
+        # rows with different numbers of live cells
+        VarSpec('U', ('t', 'x'), masked=(1,)),
         VarSpec('T', ('t',)),
     ], attrs={'title': 'test'}, label='t2x3')
     s2 = FileSpec([('t', 2, True), ('y', 3, False), ('x', 2, False)], [
